@@ -195,28 +195,17 @@ func (f *FibStrategyHashTable) pruneTables(entry *baseFibStrategyEntry) {
 		// If virtual name is present in table
 		// AND real name is associated with this virtual name
 		// AND this real name was deleted from the real table
-		// Then delete from virtualTableNames if it's last real name
-		// associated with the virtual name
+		// Then delete it from virtualTableNames; when it was the last real name
+		// associated with the virtual name the virtual entry goes away too,
+		// otherwise the max depth is recomputed from the remaining real names
 		if inVirtTable && namePresentForVirtName && pruned {
 			delete(virtTableNamesEntry, nameBytes)
 			if len(virtTableNamesEntry) == 0 {
 				delete(f.virtTableNames, virtNameHash)
-			}
-		}
-
-		// If virtual name is present in table
-		// AND the real name being deleted was the longest associated with the virtual name
-		// AND this real name was deleted from the real table
-		if inVirtTable && len(name) == virtEntry.md && pruned {
-			_, inVirtNameTable = f.virtTableNames[virtNameHash]
-			if !inVirtNameTable {
-				// Delete the entry entirely from the virtual table too
-				// if it was removed it from the virtual name table
 				delete(f.virtTable, virtNameHash)
 			} else {
-				// Update with length of next longest real prefix associated
-				// with this virtual prefix
-				for _, l := range f.virtTableNames[virtNameHash] {
+				virtEntry.md = 0
+				for _, l := range virtTableNamesEntry {
 					virtEntry.md = max(virtEntry.md, l)
 				}
 			}
